@@ -49,11 +49,32 @@ def file_arg(state):
 
 
 # =========================================================================== generation
+def structured_bytes(rng, n):
+    """Random bytes, or - a third of the time - a pattern a numeric round-trip would mangle: leading zero
+    bytes / nibbles, all zero, all ones, trailing zeros."""
+    x = rng.random()
+    if x < 0.67:
+        return rng.randbytes(n)
+    k = rng.choice([1, 1, 2, 3, n // 2])
+    kind = rng.choice(["lead0", "lead0", "lead0nibble", "zero", "ones", "trail0"])
+    if kind == "lead0":
+        return b"\x00" * k + rng.randbytes(n - k)
+    if kind == "lead0nibble":
+        b = bytearray(rng.randbytes(n))
+        b[0] &= 0x0F
+        return bytes(b)
+    if kind == "zero":
+        return b"\x00" * n
+    if kind == "ones":
+        return b"\xff" * n
+    return rng.randbytes(n - k) + b"\x00" * k
+
+
 def gen_secret(rng, command, valid=True, words=None):
     """-> (secret dict, argv fragment, is_valid)."""
     if command == "from-mnemonic":
         n = rng.choice([12, 15, 18, 21, 24])
-        ent = rng.randbytes(n * 4 // 3)
+        ent = structured_bytes(rng, n * 4 // 3)
         mn = cm.mnemonic_from_entropy(ent, words)
         if not valid:
             kind = rng.choice(["11", "13", "25", "23", "double_space", "one"])
@@ -84,7 +105,7 @@ def gen_secret(rng, command, valid=True, words=None):
             mn = " ".join(ws)
         return {"mnemonic": mn, "variant": kind}, [mn], True
     if command == "from-bip39-seed":
-        s = rng.randbytes(64).hex()
+        s = structured_bytes(rng, 64).hex()
         if not valid:
             kind = rng.choice(["-1", "+1", "-2", "+2", "nonhex", "empty"])
             if kind == "nonhex":
@@ -102,7 +123,7 @@ def gen_secret(rng, command, valid=True, words=None):
         return {"seed_hex": s}, [s], True
     if command == "from-entropy-hex":
         nb = rng.choice([16, 20, 24, 28, 32])
-        s = rng.randbytes(nb).hex()
+        s = structured_bytes(rng, nb).hex()
         if not valid:
             kind = rng.choice(["-1", "+1", "-2", "+2", "nonhex", "nb8", "nb36"])
             if kind == "nonhex":
